@@ -110,6 +110,9 @@ def equiv_case(rng) -> dict | None:
     v = c05.gen_graph(rng)
     if not c05.well_typed(v):
         return None
+    ev = c05.evaluate(v)
+    if any(sp[0] == "ref" and len(sp) > 2 and ev.get(nm) is None for nm, sp in v.items()) and rng.random() > 0.03:
+        return None          # known-finding class D45 (unresolvable blank-padded reference): kept out of the compared stream
     # strings with quotes cannot be spelled identically in both syntaxes without caring about quoting: keep them simple
     order = list(v)
     rng.shuffle(order)
@@ -139,6 +142,8 @@ def equiv_case(rng) -> dict | None:
     # where the included file lives and how the directive spells it: same folder, sub folder, by absolute path, or a name that
     # contains a backslash (a literal character of a POSIX file name, not a separator: no such file exists, nothing is merged)
     spelling = rng.choice(["plain", "plain", "sub", "abs", "abs_sub", "backslash"])
+    if spelling == "backslash" and any(sp[0] == "ref" and len(sp) > 2 for sp in v.values()) and rng.random() > 0.03:
+        spelling = "plain"       # the include is not found with this spelling: padded references stay unresolved (class D45)
     folder = "sub/" if spelling in ("sub", "abs_sub", "backslash") else ""
 
     def name(base):
@@ -180,5 +185,42 @@ def replay(ctx: Ctx, case: dict) -> None:
     process(ctx, [case])
 
 
-KNOWN_CLASSES = {"overflow_number_string": c01._d2_class}
-WITNESSES: dict = {}
+def _d45(v: dict) -> bool:
+    """a reference with blanks inside the quotes (`" $a"`) somewhere in the document"""
+    c = v["input"]
+    if c.get("kind") != "equiv":
+        return False
+    import re
+
+    def leaves(x):
+        if isinstance(x, dict):
+            for y in x.values():
+                yield from leaves(y)
+        elif isinstance(x, list):
+            for y in x:
+                yield from leaves(y)
+        elif isinstance(x, str):
+            yield x
+    for files in (c["native"], c["json"]):
+        for nm, t in files.items():
+            if nm.endswith(".json"):
+                try:
+                    if any(re.match(r"\s+\$\w", s) for s in leaves(_json.loads(t))):
+                        return True
+                except Exception:  # noqa: BLE001
+                    pass
+            elif re.search(r'"[ \t]+\$\w', t):
+                return True
+    return False
+
+
+def _w45() -> bool:
+    from dictIO import DictReader
+    with impl.scratch() as td:
+        (td / "n").write_text('v " $v";\n')
+        (td / "j.json").write_text('{"v": " $v"}')
+        return DictReader.read(td / "n")["v"] != DictReader.read(td / "j.json")["v"]
+
+
+KNOWN_CLASSES = {"overflow_number_string": c01._d2_class, "unresolved_padded_reference": _d45}
+WITNESSES: dict = {"D45": _w45}
